@@ -17,6 +17,7 @@ import (
 	"seehuhn.de/go/sfnt/glyph"
 	genfont "verif/harness/gen/font"
 	"verif/harness/guard"
+	"verif/harness/ref/refglyf"
 	"verif/harness/ref/refsfnt"
 	"verif/harness/stats"
 )
@@ -146,6 +147,18 @@ func segsEqual(a, b []seg) bool {
 	return true
 }
 
+// glyphData returns the encoded body of a simple glyph.
+func glyphData(g *glyf.Glyph) ([]byte, bool) {
+	if g == nil {
+		return nil, false
+	}
+	sg, ok := g.Data.(glyf.SimpleGlyph)
+	if !ok {
+		return nil, false
+	}
+	return sg.Encoded, true
+}
+
 func isUnsupported(err error) bool {
 	return err != nil && strings.Contains(err.Error(), "unsupported")
 }
@@ -193,6 +206,39 @@ func TestC03Font(t *testing.T) {
 			t.Fatalf("%s output is not a well-formed container: %v\n%s", what, errs, c)
 		}
 		labels := append([]string{what}, c.Labels...)
+		// glyph data as an independent reader sees it: loca entries (stored
+		// halved in the short format) must be non-decreasing, inside glyf,
+		// one more than maxp.numGlyphs, and every record must be the glyph
+		// the font value holds
+		if o, ok := f.Outlines.(*glyf.Outlines); ok {
+			head, _ := rf.Table("head")
+			maxpT, _ := rf.Table("maxp")
+			gl, _ := rf.Table("glyf")
+			lo, okL := rf.Table("loca")
+			if !okL || len(head) < 54 || len(maxpT) < 6 {
+				t.Fatalf("%s output of a TrueType font lacks loca/head/maxp\n%s", what, c)
+			}
+			format := int(head[50])<<8 | int(head[51])
+			recs, offs, err := refglyf.Parse(gl, lo, format)
+			if err != nil {
+				t.Fatalf("%s output: glyf/loca (indexToLocFormat %d, glyf %d bytes, loca %d bytes) not readable by the reference walker: %v\n%s", what, format, len(gl), len(lo), err, c)
+			}
+			if ng := int(maxpT[4])<<8 | int(maxpT[5]); ng != len(recs) || ng != len(o.Glyphs) {
+				t.Fatalf("%s output: maxp.numGlyphs=%d, loca describes %d glyphs, font has %d\n%s", what, ng, len(recs), len(o.Glyphs), c)
+			}
+			if offs[len(offs)-1] != len(gl) {
+				t.Fatalf("%s output: last loca entry %d != glyf length %d\n%s", what, offs[len(offs)-1], len(gl), c)
+			}
+			for gid, g := range o.Glyphs {
+				if (g == nil) != (recs[gid] == nil) {
+					t.Fatalf("%s output: glyph %d blank=%v in the font, blank=%v in the file\n%s", what, gid, g == nil, recs[gid] == nil, c)
+				}
+				if sg, ok := glyphData(g); ok && !bytes.Equal(recs[gid].Body, sg) {
+					t.Fatalf("%s output: simple glyph %d: %d body bytes in the file, %d in the font value\n%s", what, gid, len(recs[gid].Body), len(sg), c)
+				}
+			}
+			labels = append(labels, fmt.Sprintf("loca-format-%d", format))
+		}
 		if what != "Write" {
 			stats.CaseIn("font", stats.Hash(out), true, func() string { return what + " of " + c.String() }, labels...)
 			return
@@ -283,11 +329,8 @@ func TestC03Font(t *testing.T) {
 					outlineAbstain++
 					continue
 				}
-				want, ok := expectPolyline(c.Points[gid])
-				if !ok {
-					outlineAbstain++
-					continue
-				}
+				// every simple glyph must load; the segments are compared
+				// where x/image's integer arithmetic is exact
 				ss, err := xf.LoadGlyph(&xb, xsfnt.GlyphIndex(gid), ppem, nil)
 				if err != nil {
 					if isUnsupported(err) {
@@ -295,6 +338,11 @@ func TestC03Font(t *testing.T) {
 						continue
 					}
 					t.Fatalf("x/image LoadGlyph(%d): %v\n%s", gid, err, c)
+				}
+				want, ok := expectPolyline(c.Points[gid])
+				if !ok {
+					outlineAbstain++
+					continue
 				}
 				if got := xSegments(ss); !segsEqual(got, want) {
 					t.Fatalf("glyph %d outline: x/image %v, generated %v\n%s", gid, got, want, c)
